@@ -35,7 +35,7 @@ func (m *ringModel) isLenVs(v ssa.Value) bool {
 
 func runC07(c *Ctx) {
 	P := c.P
-	c.Explanation = "Decides: (R-RING-NORM) by abstract interpretation of package queue over intervals whose bounds are linear in L = len of the current ring buffer (every root method analysed twice: L = 0 and L ≥ 1; loop-free methods path by path, methods with loops by a joined fixpoint; the fields head and n are tracked through stores, branches are pruned and refined, buffer growth re-expresses all bounds with L' ≥ L+1, helper, predicate and getter methods of the same queue are followed): every index into the buffer lies in [0, L−1], every slice of it within [0, L], and every return re-establishes 0 ≤ n ≤ L and 0 ≤ head ≤ max(L−1, 0) — the inductive step of the ring invariant, which the zero value and the constructors establish (checked: constructors store nothing but 0 to head and n). Bit masks are not accepted as a wrap. On every path that neither grows nor rotates the buffer, the residue class mod L of each touched slot and of the final head, and the final n, are compared with the ring-deque specification of the exported method (Add writes head+n; Push writes head−1 and moves head there; Pop reads head and advances it; PopLast reads head+n−1; Front reads head; Peek(i) reads head+i or head+n+i; Each/Slice walk from head in steps of one). (R-GROW-ROTATE) the buffer grows only with head = 0, established by the false edge of head > 0 or by slice.Rotate(vs, −head) followed by head = 0. (R-DIV-NONZERO) every % or / by len(q.vs) is reached only with L ≥ 1. (R-YIELD) Each is stoppable. At the append that grows the buffer n must be exactly the buffer length and head exactly 0, so that the appended cell is logical position n; the slot classes then continue in the grown buffer. Does NOT decide how many elements Each/Slice visit, the content of bulk copies, Rotate's own correctness, nor that the contents equal the reference deque over arbitrary histories."
+	c.Explanation = "Decides: (R-RING-NORM) by abstract interpretation of package queue over intervals whose bounds are linear in L = len of the current ring buffer (every root method analysed twice: L = 0 and L ≥ 1; loop-free methods path by path, methods with loops by a joined fixpoint; the fields head and n are tracked through stores, branches are pruned and refined, buffer growth re-expresses all bounds with L' ≥ L+1, helper, predicate and getter methods of the same queue are followed): every index into the buffer lies in [0, L−1], every slice of it within [0, L], and every return re-establishes 0 ≤ n ≤ L and 0 ≤ head ≤ max(L−1, 0) — the inductive step of the ring invariant, which the zero value and the constructors establish (checked: constructors store nothing but 0 to head and n). Bit masks are not accepted as a wrap. On every path that neither grows nor rotates the buffer, the residue class mod L of each touched slot and of the final head, and the final n, are compared with the ring-deque specification of the exported method (Add writes head+n; Push writes head−1 and moves head there; Pop reads head and advances it; PopLast reads head+n−1; Front reads head; Peek(i) reads head+i or head+n+i; Each/Slice walk from head in steps of one). (R-GROW-ROTATE) the buffer grows only with head = 0, established by the false edge of head > 0 or by slice.Rotate(vs, −head) followed by head = 0. (R-DIV-NONZERO) every % or / by len(q.vs) is reached only with L ≥ 1. (R-YIELD) Each is stoppable. At the append that grows the buffer n must be exactly the buffer length and head exactly 0, so that the appended cell is logical position n; the slot classes then continue in the grown buffer. (R-SLICE-LEN) the slice Queue.Slice returns has, as a linear form over head, n and the buffer length, exactly n elements. Does NOT decide how many elements Each visits, which elements a bulk copy takes beyond their number, Rotate's own correctness, nor that the contents equal the reference deque over arbitrary histories."
 	c.rule("R-RING-NORM", 20, "every index into q.vs within [0, L-1] and at the slot the deque semantics prescribes (mod L, no-growth paths); every slice within [0, L]; at every return 0 <= n <= L, 0 <= head <= max(L-1, 0), and head/n changed as the method's specification says; constructors start from head = n = 0")
 	ruleEmptyAgreesLen(c, "queue", "Queue")
 	c.rule("R-GROW-ROTATE", 1, "every path to the growth append has head == 0 (branch fact, or Rotate(vs, -head) then head = 0)")
@@ -51,6 +51,7 @@ func runC07(c *Ctx) {
 		return
 	}
 	methods := P.Methods("queue", "Queue")
+	ruleSliceLen(c, m)
 	isGrowth := func(in ssa.Instruction) (*ssa.Call, bool) {
 		// store to q.vs of a value derived from append(load q.vs, ...)
 		st, ok := in.(*ssa.Store)
@@ -240,4 +241,109 @@ func runC07(c *Ctx) {
 	})
 
 	ruleYield(c, []*ssa.Function{P.Func("queue", "Queue", "Each")})
+}
+
+// ruleSliceLen (R-SLICE-LEN): Queue.Slice returns as many elements as the queue holds.  The length of each
+// returned value is computed as a linear form over the fields as the method found them (head, n) and L = len of
+// the buffer — make([]T, x), append(a, b...), x[lo:hi], len(x) — and must be exactly n.  A length the forms cannot
+// express gives no obligation (the per-index rules of R-RING-NORM still apply); a length that is a different form
+// is a violation: the bulk copy takes the wrong run of the buffer.
+func ruleSliceLen(c *Ctx, m *ringModel) {
+	c.rule("R-SLICE-LEN", 0, "the slice Queue.Slice returns has, as a linear form over head, n and len(buffer), exactly n elements")
+	fn := c.P.Func("queue", "Queue", "Slice")
+	if fn == nil || len(fn.Params) == 0 {
+		return
+	}
+	// the method must not write head or n (the forms speak about the entry values)
+	writes := false
+	allInstrs(fn, func(in ssa.Instruction) {
+		if st, ok := in.(*ssa.Store); ok {
+			if fa, ok := st.Addr.(*ssa.FieldAddr); ok {
+				if _, f := fieldVarOf(fa); sameField(f, m.headF) || sameField(f, m.nF) || sameField(f, m.vsF) {
+					writes = true
+				}
+			}
+		}
+	})
+	if writes {
+		return
+	}
+	var num func(v ssa.Value, d int) lform
+	var length func(v ssa.Value, d int) lform
+	num = func(v ssa.Value, d int) lform {
+		if d > 12 {
+			return lunknown()
+		}
+		if k, ok := constInt(v); ok {
+			return lconst(k)
+		}
+		switch {
+		case m.isLoad(v, m.headF):
+			return latom("head")
+		case m.isLoad(v, m.nF):
+			return latom("n")
+		}
+		switch x := v.(type) {
+		case *ssa.BinOp:
+			switch x.Op {
+			case token.ADD:
+				return num(x.X, d+1).add(num(x.Y, d+1), 1)
+			case token.SUB:
+				return num(x.X, d+1).add(num(x.Y, d+1), -1)
+			}
+		case *ssa.Call:
+			if ln, ok := isBuiltinCall(x, "len"); ok {
+				return length(ln.Call.Args[0], d+1)
+			}
+		case *ssa.Convert:
+			return num(x.X, d+1)
+		}
+		return lunknown()
+	}
+	length = func(v ssa.Value, d int) lform {
+		if d > 12 {
+			return lunknown()
+		}
+		if m.isLoad(v, m.vsF) {
+			return latom("L")
+		}
+		switch x := v.(type) {
+		case *ssa.MakeSlice:
+			return num(x.Len, d+1)
+		case *ssa.Slice:
+			hi := lunknown()
+			if x.High != nil {
+				hi = num(x.High, d+1)
+			} else {
+				hi = length(x.X, d+1)
+			}
+			lo := lconst(0)
+			if x.Low != nil {
+				lo = num(x.Low, d+1)
+			}
+			return hi.add(lo, -1)
+		case *ssa.Call:
+			if ap, ok := isBuiltinCall(x, "append"); ok && len(ap.Call.Args) == 2 {
+				return length(ap.Call.Args[0], d+1).add(length(ap.Call.Args[1], d+1), 1)
+			}
+		case *ssa.ChangeType:
+			return length(x.X, d+1)
+		}
+		return lunknown()
+	}
+	want := latom("n")
+	k := 0
+	allInstrs(fn, func(in ssa.Instruction) {
+		ret, ok := in.(*ssa.Return)
+		if !ok || len(ret.Results) != 1 {
+			return
+		}
+		f := length(ret.Results[0], 0)
+		if f.unk {
+			return
+		}
+		k++
+		c.sawFn(fnName(fn))
+		c.judge(f.eq(want), "R-SLICE-LEN", fmt.Sprintf("%s:result #%d", fnName(fn), k), ret.Pos(), "len = n", fmt.Sprintf("this return hands back %s elements, the queue holds n: the bulk copy takes the wrong run of the ring buffer (elements before the head are included, or the wrapped remainder is missing)", f))
+	})
 }
